@@ -70,13 +70,17 @@ InputForms == <<"one", "none", "nilslice", "two", "same-twice", "nil-element", "
                 "bundle-empty-entries", "patient-empty-contained",
                 \* an Observation built from the protos: a valueQuantity that has a unit but no value, component quantities and
                 \* reference-range decimals whose value text has an extreme exponent (a valid FHIR decimal: 1e-999999999, 1E+999999999)
-                "observation-odd-quantities">>
+                "observation-odd-quantities",
+                \* a Patient and an Organization (model resource MR5) in one collection, in both orders, and inside their Bundle:
+                \* backbone elements of one short message name (Patient.Contact / Organization.Contact) meet in one field node
+                "mr5-entries", "mr5-entries-reversed", "bundle-mr5">>
 OptionSets == <<"none", "time-year-10000", "time-year-0", "time-year-minus-1", "time-9999-end", "time-zone+14", "time-zone-seconds",
                 "time-zero-value", "var-nil-collection", "var-empty-name", "var-twice", "var-nil-value", "var-typed-nil-element", "var-nested-collection">>
 OptionPrograms == <<"now()", "today()", "timeOfDay()", "now() + 1 year", "today() - 1 day", "now().toString()", "today().toString().toDate()",
                     "now() > today()", "timeOfDay() + 1 hour", "Patient.birthDate < today()", "Patient.name.given", "%x", "%x.count()",
                     "Patient.name.where(given.count() > %x.count())", "descendants().count()", "%context", "%context.name", "Bundle.entry.resource.id",
                     "Bundle.entry.resource", "Bundle.entry", "Patient.contained", "Patient.contained.id", "children()", "Patient.name.family", "Bundle.entry.resource.descendants().count()",
+                    "contact.name.family", "contact.telecom.value", "contact.address.city", "Bundle.entry.resource.contact.name.family", "contact.where(name.exists()).name.given",
                     \* a variable that holds a NESTED collection (option set var-nested-collection) through the operators and set functions
                     "%x = %x", "%x != %x", "%x.distinct()", "%x.isDistinct()", "%x.exclude(%x)", "%x.intersect(%x)", "%x & 'a'", "%x.first() = 1", "%x.where($this = 1)",
                     "%x.toString()", "%x.select($this + 1)", "%x ~ %x", "%x < %x", "%x.not()", "%x.exists($this = 1)", "%x.all($this = 1)",
